@@ -289,7 +289,18 @@ def run_placed(case, res=None):
 def st_sorted_case(draw, scheme):
     desc = S.DESCS[scheme]
     cfg = desc.st_config(draw)
-    if draw(st.booleans()):
+    shape = draw(st.integers(0, 4))
+    if shape == 0:
+        # 2^a keywords with 2^b postings each: N is a power of two and no table needs a dummy entry
+        k = 2 ** draw(st.integers(3, 5))
+        n = 2 ** draw(st.integers(0, 2))
+        if n > min(desc.max_list(cfg), 256 ** desc.id_size(cfg) - 1) or k * n > min(desc.max_total(cfg), 256 ** desc.id_size(cfg) - 1) or \
+                (isinstance(desc, S.Pi2Lev) and not desc.lens_ok(cfg, [n] * k)):
+            n, k = 1, 16
+        if k * n > 256 ** desc.id_size(cfg) - 1:
+            k, n = 8, 1
+        spec = draw(S.st_db_spec(desc, cfg, lens=[n] * k))
+    elif shape <= 2:
         # many entries in one table: >= 12 keywords
         k = draw(st.integers(12, 20))
         cap = min(desc.max_list(cfg), 256 ** desc.id_size(cfg) - 1, 6)
